@@ -152,7 +152,8 @@ def run_job(job, wd):
                 else:
                     raise ValueError(form)
                 w = ndl.ndl(ev, alpha, betas, lam, method=job["method"], n_jobs=job["n_jobs"],
-                            remove_duplicates=None, temporary_directory=wd)
+                            remove_duplicates=None, temporary_directory=wd,
+                            events_per_temporary_file=job.get("events_per_file", 10000000))
             else:
                 if form == "path":
                     ev = path
